@@ -32,7 +32,7 @@ def shapes_for(vb, rng):
     out = []
     k = rng.randint(1, 4)
     for _ in range(k):
-        place = rng.choice(['inside', 'outside', 'left', 'right', 'top', 'bottom', 'corner', 'cover', 'bowtie', 'donut', 'star'])
+        place = rng.choice(['inside', 'outside', 'left', 'right', 'top', 'bottom', 'corner', 'cover', 'bowtie', 'donut', 'star', 'diag'])
         if place == 'inside': pts = [(x + 1, y + 1), (x + w - 1, y + 1), (x + w // 2, y + h - 1)]
         elif place == 'outside': pts = [(x - 5, y - 5), (x - 2, y - 5), (x - 3, y - 2)]
         elif place == 'left': pts = [(x - 2, y + 1), (x + 2, y + 1), (x + 2, y + 3), (x - 2, y + 3)]
@@ -40,6 +40,7 @@ def shapes_for(vb, rng):
         elif place == 'top': pts = [(x + 1, y - 2), (x + 4, y - 2), (x + 3, y + 3)]
         elif place == 'bottom': pts = [(x + 1, y + h - 2), (x + 4, y + h + 2), (x + 2, y + h + 3)]
         elif place == 'corner': pts = [(x - 2, y - 2), (x + 3, y - 1), (x + 2, y + 3), (x - 1, y + 2)]
+        elif place == 'diag': pts = [(x + w - 2, y + h + 4), (x + w + 4, y + h - 2), (x + w + 4, y + h + 4)]   # box overlaps the corner, geometry does not
         elif place == 'cover': pts = [(x - 3, y - 3), (x + w + 3, y - 3), (x + w + 3, y + h + 3), (x - 3, y + h + 3)]
         elif place == 'star': pts = [(x + 2, y - 2), (x + 4, y + 5), (x - 1, y + 1), (x + 5, y + 1), (x, y + 5)]   # winding 2 in the middle
         else: pts = [(x - 1, y - 1), (x + 4, y + 4), (x + 4, y - 1), (x - 1, y + 4)]
@@ -107,6 +108,8 @@ def corr(ctx):
 def judge_clip(vb, shapes):
     impl = impl_clip(vb, shapes)
     if impl[0] != 'ok': return ('clip_to_viewbox raises', 'a clipped document', impl)
+    if any(not c for c, _, _, _ in impl[1]):
+        return ('shapes entirely outside the viewBox disappear', 'no shape without geometry', {'shapes': [len(c) for c, _, _, _ in impl[1]]})
     x, y, w, h = [F(v) for v in vb]
     pts = [p for p in geom.sample_points(min(x, y) - 6, max(x + w, y + h) + 6, 23)]
     src = [(geom.contours_of(cmds_of(d)), a.get('fill_rule', 'nonzero') == 'evenodd', a.get('fill', 'black'), F(a.get('opacity', 1))) for _, a, d in shapes]
